@@ -1,7 +1,9 @@
 package props
 
 import (
+	"encoding/hex"
 	"math/big"
+	"strings"
 	"testing"
 
 	"github.com/bytemare/secp256k1"
@@ -266,5 +268,115 @@ var c13sel = gen.Register(&gen.Check[caseC13sel]{
 })
 
 func TestC13CSelect(t *testing.T) { c13sel.Execute(t) }
+
+// caseC13after: comparisons on a scalar object whose last call FAILED (a rejected decode, a CSelect with a nil operand).
+// Nothing is assumed about which value the object then holds (C07 does not say), only that it still is a scalar: the
+// integer it encodes to is the one every comparison must see.
+type caseC13after struct {
+	Prior SV     `json:"prior"`
+	Bad   string `json:"bad"`  // hex of the rejected 32-byte (or other) input
+	Via   int    `json:"via"`  // 0 Decode, 1 UnmarshalBinary, 2 DecodeHex, 3 CSelect(nil)
+	W     SV     `json:"w"`    // an unrelated scalar to compare with
+	Cond  uint64 `json:"cond"` // condition word for the CSelect observation
+}
+
+var c13after = gen.Register(&gen.Check[caseC13after]{
+	Name:   "C13/after-failed-call",
+	Weight: 0.25,
+	Gen: func(t *rapid.T) caseC13after {
+		c := caseC13after{Prior: SVGen().Draw(t, "prior"), W: SVGen().Draw(t, "w"), Via: gen.Pick(t, "via", 4), Cond: rapid.SampledFrom(condWords).Draw(t, "cond")}
+		var v *big.Int
+		switch gen.Pick(t, "badKind", 4) {
+		case 0: // n + small
+			v = new(big.Int).Add(ref.N, big.NewInt(int64(rapid.IntRange(0, 3).Draw(t, "d"))))
+		case 1: // anything in [n, 2^256)
+			span := new(big.Int).Sub(new(big.Int).Lsh(bigOne, 256), ref.N)
+			v = new(big.Int).Add(ref.N, gen.Int(span).Draw(t, "off"))
+		case 2: // top of the range
+			v = new(big.Int).Sub(new(big.Int).Lsh(bigOne, 256), big.NewInt(int64(1+rapid.IntRange(0, 3).Draw(t, "d"))))
+		default: // n + the prior value / n + w (the reduced value collides with an existing scalar), when that fits in 256 bits
+			v = new(big.Int).Add(ref.N, c.W.Value())
+			if v.BitLen() > 256 {
+				v = new(big.Int).Add(ref.N, bigOne)
+			}
+		}
+		c.Bad = hex.EncodeToString(ref.Bytes32(v))
+		return c
+	},
+	Fixed: func() []caseC13after {
+		var out []caseC13after
+		one := SV{Hex: gen.H(bigOne)}
+		for via := 0; via < 4; via++ {
+			for _, d := range []int64{0, 1, 2} {
+				out = append(out, caseC13after{Prior: one, W: one, Via: via, Bad: hex.EncodeToString(ref.Bytes32(new(big.Int).Add(ref.N, big.NewInt(d)))), Cond: 1})
+			}
+			out = append(out, caseC13after{Prior: one, W: SV{Hex: gen.H(big.NewInt(7))}, Via: via, Bad: strings.Repeat("ff", 32), Cond: 0})
+		}
+		return out
+	},
+	Required: []string{"failed:decode", "failed:cselect-nil"},
+	Run: func(c caseC13after, o *gen.Obs) error {
+		s, w := c.Prior.Build(), c.W.Build()
+		vw := c.W.Value()
+		bad := gen.HexBytes(c.Bad)
+		var err error
+		switch c.Via {
+		case 0:
+			err = s.Decode(bad)
+		case 1:
+			err = s.UnmarshalBinary(bad)
+		case 2:
+			err = s.DecodeHex(hex.EncodeToString(bad))
+		default:
+			err = s.CSelect(c.Cond, nil, w)
+		}
+		if err == nil {
+			return nil // accepted: not the situation this check is about (acceptance is C07's business)
+		}
+		o.ClassIf(c.Via < 3, "failed:decode")
+		o.ClassIf(c.Via == 3, "failed:cselect-nil")
+		o.NonTrivial()
+		enc := s.Encode()
+		if len(enc) != 32 {
+			return gen.Fail("after-failed/encode", "Encode returns %d bytes", len(enc))
+		}
+		v := ref.OS2IP(enc)
+		if v.Cmp(ref.N) >= 0 {
+			return gen.Fail("after-failed/encode", "after the failed call the scalar encodes to %x, which is not < n", enc)
+		}
+		tw := SV{Hex: gen.H(v)}.Build() // a fresh scalar holding the value the object shows
+		type obs struct {
+			name      string
+			got, want int
+		}
+		list := []obs{
+			{"Equal(s, fresh(s))", s.Equal(tw), 1}, {"Equal(fresh(s), s)", tw.Equal(s), 1},
+			{"IsZero(s)", b2i(s.IsZero()), b2i(v.Sign() == 0)}, {"IsOne(s)", b2i(s.IsOne()), b2i(v.Cmp(bigOne) == 0)},
+			{"LessOrEqual(s, fresh(s))", int(s.LessOrEqual(tw)), 1}, {"LessOrEqual(fresh(s), s)", int(tw.LessOrEqual(s)), 1},
+			{"Equal(s, w)", s.Equal(w), b2i(v.Cmp(vw) == 0)}, {"Equal(w, s)", w.Equal(s), b2i(v.Cmp(vw) == 0)},
+			{"LessOrEqual(s, w)", int(s.LessOrEqual(w)), b2i(v.Cmp(vw) <= 0)}, {"LessOrEqual(w, s)", int(w.LessOrEqual(s)), b2i(vw.Cmp(v) <= 0)},
+		}
+		for _, ob := range list {
+			if ob.got != ob.want {
+				return gen.Fail("after-failed/"+strings.SplitN(ob.name, "(", 2)[0], "after a failed call (via %d, input %s) the scalar encodes to %x but %s = %d, want %d",
+					c.Via, c.Bad, enc, ob.name, ob.got, ob.want)
+			}
+		}
+		r := secp256k1.NewScalar()
+		if err := r.CSelect(c.Cond, w, s); err != nil {
+			return gen.Fail("after-failed/CSelect", "unexpected error %v", err)
+		}
+		want := vw
+		if c.Cond != 0 {
+			want = v
+		}
+		if e := checkScalar("after-failed/CSelect", r, want); e != nil {
+			return e
+		}
+		return nil
+	},
+})
+
+func TestC13AfterFailedCall(t *testing.T) { c13after.Execute(t) }
 
 var _ = secp256k1.NewScalar
